@@ -488,7 +488,7 @@ pid_t Kernel::sys_waitpid(pid_t pid, int *status, int options) {
     if (!any) { e.ret = -1; e.err = ECHILD; emit(e); errno = ECHILD; return -1; }
     if (options & WNOHANG) { e.ret = 0; emit(e); return 0; }
     int mypid = me->pid;
-    int wk = block([this, mypid, pid] { for (auto &pp : procs) { Proc *c = pp.second; if (c->ppid == mypid && c->st == Proc::ZOMBIE && (pid <= 0 || c->pid == pid)) return true; } return false; }, -1);
+    int wk = block([this, mypid, pid] { bool left = false; for (auto &pp : procs) { Proc *c = pp.second; if (c->ppid != mypid || (pid > 0 && c->pid != pid)) continue; if (c->st == Proc::ZOMBIE) return true; if (c->st != Proc::GONE) left = true; } return !left; /* nobody left to wait for: ECHILD */ }, -1);
     if (wk == W_SIGNAL) { deliver_signals(); e.ret = -1; e.err = EINTR; emit(e); errno = EINTR; return -1; }
   }
 }
